@@ -42,7 +42,7 @@ META = dict(
                  "overflow in that phase end the judgement of the run (observed: CG on a 1x1 system driven "
                  "on by a level-3 DeltaEnergyController blows up to inf after the exact solve)"],
     need=["energy_consistency_checks", "controller_decisions", "converged_claims_verified",
-          "inversion_enabler_solutions", "nstep_termination_checks", "cg_runs"],
+          "inversion_enabler_solutions", "nstep_termination_checks", "cg_runs", "controller_reuse_runs"],
     quick=dict(cases=800, workers=6, budget_s=80),
     thorough=dict(cases=50000, workers=16, budget_s=700),
     design_ref="DESIGN.md §5 C14",
@@ -467,6 +467,30 @@ def case(ck, i):
             J.monotone()
         iters = max(0, nev - 1)
         desc["iters"] = iters
+        if path == "cg" and rng.integers(0, 2) == 0:
+            # the same controller object drives a second, unrelated solve (as InversionEnabler and the
+            # samplers do on every application): its decisions must again follow the configured criteria,
+            # whatever the first solve left behind in the object
+            b2 = cs.gen_vec(rng, n, cplx, scale=float(10.0 ** rng.integers(-2, 3)))
+            x02 = np.zeros(n, dtype=A.dtype) if rng.integers(0, 2) else \
+                cs.gen_vec(rng, n, cplx, scale=cs.nrm(np.linalg.solve(A, b2)) / np.sqrt(n) + 1e-3)
+            sh2 = cs.make_controller(ift, spec)[1]
+            J2 = RunJudge(ck, A, b2, cplx, sh2, type(ic).__name__ + ":reused", nreset, "cg-reused-controller")
+            rec.begin()
+            crashed = None
+            try:
+                e02 = ift.QuadraticEnergy(cs.mkfield(dom, x02), op, cs.mkfield(dom, b2))
+                out2, status2 = ift.ConjugateGradient(ic, nreset=nreset)(e02, preconditioner=P)
+            except ZeroDivisionError as e:
+                crashed = e
+            finally:
+                events2 = [e for e in rec.end() if e["t"] == "ctrl" and e["ctrl"] is ic]
+            J2.run(events2)
+            ck.hit("controller_reuse_runs")
+            desc["reused"] = True
+            if crashed is None:
+                judge_return(J2, events2, out2, status2, hpd, ic)
+                J2.monotone()
         if path == "nstep" and events:
             m = desc["distinct"]
             if len(events) - 1 >= m and r0 > 0:
